@@ -21,7 +21,7 @@ CFG = dict(
          "formats (records with shared/adjacent/extreme addresses, zero counts, alloc columns, every heap header variant, rates none/1/2/3/small/524288 (effective rate exactly 1 included) x tiny 1-8 byte blocks with counts up to 40000, "
          "attribute blocks, same-as-previous threads, all four CPU word layouts with shared second frames at the len/32 margin, "
          "memory maps in /proc/maps, brief and gperftools form with adjacent/offset/main-binary/hugepage/non-executable entries), "
-         "its layout variants (CRLF, no final newline, column alignment, interleaved comments, symbolized thread lines) and 1-3 "
+         "plus deterministic streams generated on every run (runs of 2-4 EQUAL consecutive records in every format x handler frame(s) x duplicated leaf x all four CPU word layouts; CPU documents with >= 32 records whose tolerated outliers carry the handler address deeper or as leaf; one object as 3-4 contiguous map segments in every map form); its layout variants (CRLF, no final newline, column alignment, interleaved comments, symbolized thread lines) and 1-3 "
          "token-level mutations; distinct = sha256 of the input term; non-trivial = the document has at least one record",
     spec_what="legacy profile does not convert to the documented samples / addresses / values / block-size label / mappings",
     trusted_base=["hand-written recognisers for the regular expressions of legacy_profile.go (validated against Go regexp on every case)",
